@@ -154,12 +154,30 @@ HUGE = {
 }
 
 
+def mem_available_gib():
+    try:
+        for ln in open("/proc/meminfo"):
+            if ln.startswith("MemAvailable:"):
+                return int(ln.split()[1]) / (1 << 20)
+    except OSError:
+        pass
+    return 0.0
+
+
 def run_hugesim(ctx, flavour, prop, kinds, runs):
+    # every run dirties an output buffer of up to 2 GiB (quick) / 4 GiB (thorough): the worker count follows the memory that
+    # is actually available, and without room for a single one the huge requests are skipped (recorded, not a verdict)
+    per = 2.3 if ctx.tier == "quick" else 4.5
+    want = 3 if ctx.tier == "quick" else 8
+    workers = min(want, int((mem_available_gib() - 3.0) / per))
+    if workers < 1:
+        ctx.notes.append("hugesim skipped on %s: only %.1f GiB of memory available" % (flavour, mem_available_gib()))
+        return {"stats": {"runs": 0}, "violations": [], "wall_s": 0.0, "samples": [], "probes": {}, "transition_hashes": [], "raw_violations": 0}
     d = build_flavour(ctx, flavour, targets=("hugesim",))
     out = os.path.join(ctx.B, "out", "%s-huge-%s-%d.json" % (prop, flavour, os.getpid()))
     os.makedirs(os.path.dirname(out), exist_ok=True)
     cmd = [os.path.join(d, "hugesim"), "--prop", prop, "--kinds", kinds, "--tier", ctx.tier, "--seed", str(ctx.seed), "--runs", str(runs), "--first", "0",
-           "--workers", "8" if ctx.tier == "thorough" else "3", "--out", out, "--outdir", os.path.join(ctx.B, "out"), "--replaydir", ctx.replay_dir]
+           "--workers", str(workers), "--out", out, "--outdir", os.path.join(ctx.B, "out"), "--replaydir", ctx.replay_dir]
     p = subprocess.run(cmd, capture_output=True, text=True)
     if p.returncode not in (0, 1):
         sys.stderr.write(p.stdout[-3000:] + p.stderr[-6000:])
